@@ -5,15 +5,15 @@ Open Scope string_scope.
 
 (* every `for ... range` over a map-typed operand in cl/*.go and x/build/*.go (non-test files):
    (package dir, enclosing top-level function, ranged expression, hash of the normalised statement) *)
-Definition range_stmts_seen : nat := 106.
+Definition range_stmts_seen : nat := 108.
 Definition map_ranges : list (string * string * string * string) :=
   [("cl", "NewPackage", "ctx.syms", "c31203be9df4c093");
    ("cl", "NewPackage", "files", "0e5ed42ab49ed545");
    ("cl", "NewPackage", "pkg.GoFiles", "516b8b20e3208238");
    ("cl", "compileTypeSwitchStmt", "seen", "e69fdafca2fc9082");
-   ("cl", "gmxCheckProjs", "ctx.projs", "e2c7fbf032a8756d");
+   ("cl", "gmxCheckProjs", "ctx.projs", "73d872360358c80a");
    ("cl", "goxRecorder.Complete", "p.referDefs", "c174eb508b2b9a9c");
    ("cl", "goxRecorder.Complete", "p.referUses", "622b81c1770e20dd");
-   ("cl", "initGopPkg", "ctx.syms", "caa75b6ae9a965bd");
+   ("cl", "initGopPkg", "ctx.syms", "1ce40c634cba7601");
    ("cl", "pkgCtx.lookupClassNode", "p.classes", "311cdd4adef26611");
-   ("x/build", "Context.loadPackage", "pkgs", "12b0380aaff8bc3c")].
+   ("x/build", "Context.loadPackage", "pkgs", "52fc1ce5add0db05")].
